@@ -439,7 +439,23 @@ def _int_guarded(node, names):
             t = norm(test)
             if 'isinstance(' in t and ('int' in t) and \
                     'float' not in t:
-                return True
+                # the test must be about what is floored: the numerator
+                # itself, or every operand of it (an integer test of one
+                # of two summands says nothing about the sum)
+                num = node.left if isinstance(node, ast.BinOp) else None
+                if num is None:
+                    return True
+                tested = {norm(c.args[0]) for c in ast.walk(test)
+                          if isinstance(c, ast.Call) and
+                          norm(c.func) == 'isinstance' and c.args}
+                operands = {norm(x) for x in ast.walk(num)
+                            if isinstance(x, (ast.Name, ast.Subscript))
+                            and not isinstance(
+                                getattr(x, '_dt_parent', None),
+                                ast.Subscript)}
+                if norm(num) in tested or (operands and
+                                           operands <= tested):
+                    return True
         child = anc
     return False
 
@@ -512,7 +528,37 @@ def rule_median(model):
                       node=nd, ctx=fi)
     n_even = 0
     work = []
+
+    def expand(e, depth=0):
+        """e with locals that have a single definition (an inlined
+        helper's parameters: lower = values[half - 1]) replaced by it."""
+        if depth > 3:
+            return e
+
+        class _X(ast.NodeTransformer):
+            def visit_Name(self, node):
+                if isinstance(node.ctx, ast.Load) and node.id != vals:
+                    ds = model.local_defs(fi, node.id)
+                    if len(ds) == 1 and isinstance(ds[0], ast.AST):
+                        return expand(_copy(ds[0]), depth + 1)
+                return node
+        return _X().visit(_copy(e))
     for nd, v in stores:
+        if isinstance(v, ast.Name):
+            defs0 = [d for d in model.local_defs(fi, v.id)
+                     if isinstance(d, ast.AST)]
+            direct = [d for d in defs0 if any(
+                isinstance(x, ast.Subscript) and norm(x.value) == vals
+                for x in ast.walk(d))]
+            if not direct and defs0:
+                # every definition combines locals that hold the values
+                ex = [(d, expand(d)) for d in defs0]
+                if all(any(isinstance(x, ast.Subscript) and
+                           norm(x.value) == vals for x in ast.walk(e_))
+                       for _, e_ in ex):
+                    for d, e_ in ex:
+                        work.append((nd, e_, d))
+                    continue
         if isinstance(v, ast.Name):
             # a local that holds the combination: its definition that
             # reads the values, and the definitions derived from itself
